@@ -479,7 +479,9 @@ func (f *Frame) val(v ssa.Value) Val {
 	case *ssa.Global:
 		return Val{Loc: &Loc{Kind: LocGlobal, Global: t, Typ: t.Type().(*types.Pointer).Elem()}, Typ: t.Type()}
 	case *ssa.Function:
-		return Val{T: fmt.Sprintf("(mk_fn %d 0)", f.vc.fnID(t)), Typ: t.Type(), Fn: t}
+		ft := fmt.Sprintf("(mk_fn %d 0)", f.vc.fnID(t))
+		f.vc.fnOfTerm[ft] = t
+		return Val{T: ft, Typ: t.Type(), Fn: t}
 	case *ssa.Builtin:
 		unsup("builtin %s used as value", t.Name())
 	}
@@ -845,6 +847,7 @@ func (f *Frame) newRef(st *State, what string) string {
 		st.wr.alloc = true
 	}
 	vc.nonNil[r] = true
+	vc.fresh_[r] = true
 	return r
 }
 
@@ -897,7 +900,35 @@ func (f *Frame) instr(ins ssa.Instruction, pc string, st *State) string {
 		f.vals[t] = Val{Loc: l, Typ: t.Type()}
 	case *ssa.Store:
 		l := f.toLoc(f.val(t.Addr))
-		f.store(l, f.termOf(f.val(t.Val)), st, pc, t.Pos())
+		sv := f.val(t.Val)
+		if sv.Loc != nil && sv.Loc.Kind != LocRef && sv.Loc.Kind != LocArray && l.Kind == LocRef && vc.fresh_[l.Ref] {
+			// interior pointer stored into a freshly allocated cell (spilled parameter, captured variable)
+			if st.ptrCells == nil {
+				st.ptrCells = map[string]*Loc{}
+			}
+			st.ptrCells[l.Ref] = sv.Loc
+			f.store(l, vc.freshConst("iptr", "Int"), st, pc, t.Pos())
+			break
+		}
+		if l.Kind == LocRef && st.ptrCells != nil {
+			delete(st.ptrCells, l.Ref)
+		}
+		if l.Kind == LocRef {
+			if st.fnCells != nil {
+				delete(st.fnCells, l.Ref)
+			}
+			fn := sv.Fn
+			if fn == nil {
+				fn = vc.fnOfTerm[sv.T]
+			}
+			if fn != nil && vc.fresh_[l.Ref] {
+				if st.fnCells == nil {
+					st.fnCells = map[string]*ssa.Function{}
+				}
+				st.fnCells[l.Ref] = fn
+			}
+		}
+		f.store(l, f.termOf(sv), st, pc, t.Pos())
 	case *ssa.UnOp:
 		f.unop(t, pc, st)
 	case *ssa.BinOp:
@@ -1031,7 +1062,14 @@ func (f *Frame) instr(ins ssa.Instruction, pc string, st *State) string {
 				vc.assert(fmt.Sprintf("(= (%s %s) %s)", capf, env, f.termOf(b)))
 			}
 		}
-		f.vals[t] = Val{T: fmt.Sprintf("(mk_fn %d %s)", vc.fnID(fn), env), Typ: t.Type(), Fn: fn}
+		ft := fmt.Sprintf("(mk_fn %d %s)", vc.fnID(fn), env)
+		vc.fnOfTerm[ft] = fn
+		var bvals []Val
+		for _, bv := range t.Bindings {
+			bvals = append(bvals, f.val(bv))
+		}
+		vc.closureBinds[ft] = bvals
+		f.vals[t] = Val{T: ft, Typ: t.Type(), Fn: fn}
 	case *ssa.Call:
 		return f.call(t, t.Common(), pc, st)
 	case *ssa.Defer:
@@ -1086,12 +1124,23 @@ func (f *Frame) unop(t *ssa.UnOp, pc string, st *State) {
 	switch t.Op {
 	case token.MUL: // load
 		l := f.toLoc(x)
+		if l.Kind == LocRef && st.ptrCells != nil {
+			if pl, ok := st.ptrCells[l.Ref]; ok {
+				f.vals[t] = Val{Loc: pl, Typ: t.Type()}
+				return
+			}
+		}
 		if tt, ok := t.Type().(*types.Tuple); ok {
 			_ = tt
 			unsup("tuple load")
 		}
 		term := f.load(l, st, pc, t.Pos())
 		name := vc.define(f.label+t.Name(), vc.sortOf(t.Type()), term)
+		if l.Kind == LocRef && st.fnCells != nil {
+			if fn, ok := st.fnCells[l.Ref]; ok {
+				vc.fnOfTerm[name] = fn
+			}
+		}
 		if name != term || true {
 			if l.Kind != LocLocal {
 				vc.assert(vc.typed(name, t.Type(), 2))
